@@ -92,6 +92,9 @@ impl DealerSocketOutgoingProcessor {
           zmtp_frames_for_logical_message.len()
         );
 
+        // route_message hands the batch back only for would-block; for a timeout or a lost peer the batch
+        // is consumed. This message was already accepted, so keep a (cheap, ref-counted) copy to re-queue.
+        let accepted_message = zmtp_frames_for_logical_message.clone();
         match self.outgoing_orchestrator.route_message(zmtp_frames_for_logical_message, false).await {
           Ok(()) => {
             let queue_guard = self.pending_queue.lock().await;
@@ -101,13 +104,14 @@ impl DealerSocketOutgoingProcessor {
               self.queue_activity_notifier.notify_one();
             }
           }
-          Err((returned, _)) => {
+          Err((returned, e)) => {
             tracing::debug!(
               "[DealerProc {}] route_message failed (all peers full or no peers). Re-queuing.",
               self.core_handle
             );
+            let requeue = if matches!(e, ZmqError::ResourceLimitReached) { returned } else { accepted_message };
             let mut queue_guard = self.pending_queue.lock().await;
-            queue_guard.push_front(returned);
+            queue_guard.push_front(requeue);
             self.queued_message_in_flight.store(false, std::sync::atomic::Ordering::Release);
             drop(queue_guard);
             self.queue_activity_notifier.notify_one();
@@ -666,9 +670,13 @@ impl DealerSocket {
 
     match self.outgoing_orchestrator.route_message(zmtp_wire_frames, false).await {
       Ok(()) => Ok(()),
-      Err((returned, _)) => {
+      // No peer has room right now: the message comes back whole and waits in the queue.
+      Err((returned, ZmqError::ResourceLimitReached)) => {
         self.queue_message_or_error(returned, global_sndhwm, global_sndtimeo).await
       }
+      // The timed wait for room ran out, or the peer went away: the message was consumed by that
+      // attempt (an empty batch comes back), so it must not be reported as accepted.
+      Err((_, e)) => Err(e),
     }
   }
 
